@@ -2,8 +2,8 @@
    results map handed to the scheduler is a COPY of the DAG-level map (constants, parameter defaults, setup
    results) in which the i-th positional argument overrides the entry of the i-th input node — whatever the
    argument is (None included) and whether or not the parameter has a default; more arguments than
-   parameters raise TypeError.  Keyword arguments are bound to positions by Python before this point
-   (inspect.Signature of the describing function).  Definitions only; facts in ArgsFacts.v. *)
+   parameters raise TypeError.  A DAG call takes positional arguments only: keyword arguments are refused with
+   TawaziUsageError before this point (dag.py:695-700; checked by K-bind on every generated program).  Definitions only; facts in ArgsFacts.v. *)
 From Coq Require Import List Arith Bool PeanoNat.
 From Tawazi Require Import Graph Sched Dataflow.
 Import ListNotations.
